@@ -130,6 +130,12 @@ def _macro_edits(sf: SourceFile, lo_tok: int, hi_tok: int) -> List[Tuple[int, in
                 edits.append((t.start, toks[close].end, rep, 'R5:%s!' % name))
                 i = close + 1
                 continue
+        # rule R15: `X.extension() == Some("typ".as_ref())` -> `X.vp_ext_is_typ()` (OsStr comparison has no Verus spec)
+        if t.text == '.' and i + 12 < hi_tok and [x.text for x in toks[i + 1:i + 13]] == \
+                ['extension', '(', ')', '==', 'Some', '(', '"typ"', '.', 'as_ref', '(', ')', ')']:
+            edits.append((t.start, toks[i + 12].end, '.vp_ext_is_typ()', 'R15:extension-is-typ'))
+            i += 13
+            continue
         # rule R14: fully qualified std paths -> the shim module vp_std
         if t.kind == 'ident' and t.text == 'std' and toks[i + 1].text == '::' and toks[i + 2].text in ('fs', 'io', 'env') \
                 and (i == 0 or toks[i - 1].text != '::'):
